@@ -196,21 +196,28 @@ example : ids Two.w3 = [1, 2] ∧ Two.w3.nextId = 3 ∧
 /-- **A client has at most one request in progress.**
 
     1. While a command is in progress, a request line — whatever it says — is answered with exactly the line
-       `208 Command in progress` appended to the client's own buffer (no prompt), and nothing else changes: not the
-       world, not the command, not the flags.
+       `208 Command in progress` appended to the client's own buffer (no prompt) — or, if its stripped text is
+       `CP_LINEMAX` = 131072 bytes or longer (`TooLong`; `_parse_input` tests the length first), with exactly the line
+       `203 Command too long` and the prompt — and nothing else changes: not the world, not the command, not the flags.
     2. For every line, client and world: `parseLine` either leaves queues, arglist store and arglist counter alone and
        keeps the client's command as it is, or performs one `install` — and the latter only when the client had no
        command (`Enq`).  So a second command (a second arglist, a second batch of actions with this client's id) is never
        created while one is pending.
     3. When queues change at all, `parseLine` *is* a call of `install` made with `c.cmd = none`. -/
 theorem C11_one_command (w : W) (c : Cli) (line : Bytes) :
-    (c.cmd.isSome = true → parseLine w c line = (w, put c (bstr "208 Command in progress\r\n"))) ∧
+    (c.cmd.isSome = true → parseLine w c line =
+      if ClientPf.TooLong line then (w, put c (bstr "203 Command too long\r\n" ++ (if c.quit then [] else prompt)))
+      else (w, put c (bstr "208 Command in progress\r\n"))) ∧
     Enq c.id w (parseLine w c line).1 c.cmd (parseLine w c line).2.cmd ∧
     ((parseLine w c line).1.devs = w.devs ∨ ∃ com names, parseLine w c line = install w c com names ∧ c.cmd = none) := by
   refine ⟨fun h => ?_, parseLine_enq w c line, ?_⟩
-  · rw [ClientPf.parseLine_busy w c line h]
-    have : ClientPf.render [ClientPf.item208] = bstr "208 Command in progress\r\n" := by decide +kernel
-    rw [this]
+  · by_cases hl : ClientPf.TooLong line
+    · rw [if_pos hl, ClientPf.parseLine_tooLong w c line hl]
+      have : ClientPf.render [ClientPf.item203] = bstr "203 Command too long\r\n" := by decide +kernel
+      rw [this]
+    · rw [if_neg hl, ClientPf.parseLine_busy w c line h hl]
+      have : ClientPf.render [ClientPf.item208] = bstr "208 Command in progress\r\n" := by decide +kernel
+      rw [this]
   · rcases Enq.parseLine_cases w c line with h | ⟨com, names, h1, h2, _⟩
     · exact Or.inl h
     · exact Or.inr ⟨com, names, h1, h2⟩
